@@ -62,6 +62,9 @@ type histServer struct {
 	// monitor_cond), and only condAllowed monitor_cond requests are accepted
 	oldServer   bool
 	condAllowed int
+	// replyDelay holds back the reply to monitor requests (the request has been read, nothing
+	// registered yet), so that notifications of other monitors overtake it
+	replyDelay time.Duration
 }
 
 func newHistServer(m *dyn.Model, path string, p *prng.R) (*histServer, error) {
@@ -225,6 +228,12 @@ func (h *histServer) monitor(c *rpc2.Client, method string, args []json.RawMessa
 	last := ""
 	if len(args) > 3 {
 		_ = json.Unmarshal(args[3], &last)
+	}
+	h.mu.Lock()
+	d := h.replyDelay
+	h.mu.Unlock()
+	if d > 0 {
+		time.Sleep(d)
 	}
 	h.mu.Lock()
 	defer h.mu.Unlock()
